@@ -93,7 +93,7 @@ impl World {
 }
 
 /// number of hand-written histories run before the random ones
-pub const N_DIRECTED: usize = 4;
+pub const N_DIRECTED: usize = 5;
 
 pub fn penalty_num(loc: u32, class: u32) -> u32 {
     1000 + loc * 10 + class
@@ -303,7 +303,17 @@ impl<'a> Gen<'a> {
         let mut ops: Vec<HOp> = vec![HOp::Reg { user: 1 }, HOp::Reg { user: 2 }];
         // one tracker reaches 100 confirmations in the very block in which another one's re-broadcast is rejected: the
         // first is refunded, the second is not (three spacings, so that one of them makes the two coincide)
-        if which == 3 {
+        if which == 4 {
+            // (run with a subscription duration above 2^31 blocks) a renewal whose new expiry runs into the u32 cap: the
+            // receipt, the gatekeeper's memory and the users row must carry the same (capped) number, also after a restart
+            ops.push(HOp::Reg { user: 1 });
+            ops.push(HOp::Sub { user: 1, sig: SigKind::Valid });
+            ops.push(HOp::Add { user: 1, loc: 1, blob: enc(1, 260), tsd: 10, sig: SigKind::Valid });
+            ops.push(HOp::Restart);
+            ops.push(HOp::Sub { user: 1, sig: SigKind::Valid });
+            ops.push(HOp::Reg { user: 2 });
+            ops.push(empty());
+        } else if which == 3 {
             // the node reports the penalty as already in the chain (mined together with the dispute): no tracker, the
             // appointment stays; a smaller, undecryptable replacement for it follows while the locator is in the cache
             ops.push(HOp::Add { user: 1, loc: 3, blob: enc(3, 4097), tsd: 10, sig: SigKind::Valid });
@@ -512,12 +522,16 @@ pub fn run_mode2(seed: u64, thorough: bool, rep: &mut Report, http: bool, plugin
             let mut rng = rngs.lock().unwrap()[c].take().unwrap();
             let mut rep = Report::detached();
             let directed = if c < N_DIRECTED && !http { Some(c) } else { None };
-            let cfg = if directed.is_some() { (5u32, 400u32, 6u32) } else { (
+            let cfg = if directed == Some(4) { (5u32, 2_200_000_000u32, 0u32) } else if directed.is_some() { (5u32, 400u32, 6u32) } else { (
                 // (a subscription size for which a second registration overflows u32: the refused-renewal path)
                 *rng.pick(&[1u32, 2, 3, 5, 8, 1, 2, 3, 5, 8, 2_200_000_000]),
-                [0u32, 1, 4, 10, 25, 150, 400][rng.weighted(&[3, 4, 8, 15, 25, 30, 15])],
+                // (a duration for which a renewal runs into the u32 cap of the expiry)
+                [0u32, 1, 4, 10, 25, 150, 400, 2_200_000_000][rng.weighted(&[3, 4, 8, 15, 25, 30, 15, 4])],
                 *rng.pick(&[0u32, 1, 2, 6]),
             ) };
+            // (expiry + grace is an unchecked u32 addition in the gatekeeper: with an expiry at the cap only a zero grace
+            // period stays inside the stated precondition of C09)
+            let cfg = if cfg.1 > 2_000_000_000 { (cfg.0, cfg.1, 0) } else { cfg };
             let height = 100 + rng.below(40) as u32;
             rep.begin_case(&format!("hist-{seed}-{c}"));
             let mut sys = TowerSys::boot(cfg, height, &boot, &mut rep);
@@ -527,9 +541,16 @@ pub fn run_mode2(seed: u64, thorough: bool, rep: &mut Report, http: bool, plugin
             }
             let nops = rng.range(15, if thorough { 140 } else { 70 }) as usize;
             let mut g = Gen { rng, sys, world: World::new(), rep: &mut rep, nlocs: 4, nusers: 3, monitors: true, mon: Default::default(), max_blob: if http { 800 } else { usize::MAX } };
-            match directed {
+            // a panic that escapes the per-operation guard (a restart that cannot load its own database, say) must not
+            // make the case vanish from the report
+            let ran = std::panic::catch_unwind(std::panic::AssertUnwindSafe(|| match directed {
                 Some(d) => g.directed(d),
                 None => g.history(nops, thorough),
+            }));
+            if let Err(e) = ran {
+                let what = e.downcast_ref::<String>().cloned().or_else(|| e.downcast_ref::<&str>().map(|x| x.to_string())).unwrap_or_default();
+                g.rep.fail("C11", "panic@outside-request-handlers", &format!("the tower panicked outside a request or block handler: {what}"));
+                g.rep.fail("C03", "restart_failed", &format!("the tower could not be started again on its own data directory: {what}"));
             }
             let shape = g.world.shape.clone();
             let nontrivial = shape.contains('A') && shape.contains('C');
